@@ -438,6 +438,35 @@ def r7(ctx, facts):
                        "checked (excess fields under forbid_excess_udt_fields, the type of a present allow_missing field, duplicates), so acceptance depends on the listing order", c.span)
 
 
+def r8(ctx, facts):
+    r = ctx.rule("R8", "ordered serialization consumes a database field only after its name matched the Rust field (a skipped allow_missing field leaves it for the next one)", floor=4)
+    for name, (kind, flavor, fields, der) in FAMILY.items():
+        if flavor != "order" or "s" not in der or kind != "udt":
+            continue        # rows have no allow_missing: a mismatch is an error, nothing is skipped
+        tr = "scylla_cql_core::serialize::value::SerializeValue"
+        b = find_body(facts, r"^<derive_family::%s as %s>::serialize$" % (name, re.escape(tr)))
+        df = df_of(b, facts)
+        eqs = [c for bb, c in b.calls() if bb in b.live_blocks and c.decl == "core::cmp::PartialEq::eq"]
+        nexts = [c for bb, c in b.calls() if bb in b.live_blocks and (c.decl or "").endswith("Iterator::next")]
+        if not eqs or not nexts:
+            raise AnchorLost("%s::serialize (ordered): name comparisons / iterator advances not found (%d/%d)" % (name, len(eqs), len(nexts)))
+        for i, e in enumerate(eqs):
+            names = set()
+            for a in e.args:
+                names |= {(x.decl or x.name or "") for x in backward_slice(b, a)[1]}
+            looked = any(n.endswith("::peek") for n in names)
+            consumed = any(n.endswith("Iterator::next") for n in names)
+            r.instance("%s:name-checked-before-consuming#%d" % (name, i), looked and not consumed,
+                       "the database field whose name is compared here was %s: if the names differ and the Rust field is allow_missing, that database field is gone and the next "
+                       "Rust field is compared with the one after it" % ("already taken out of the iterator" if consumed else "not obtained by a non-consuming look (peek)"), e.span)
+        for i, nx in enumerate(nexts):
+            doms = [e for e in eqs if b.dominates(e.bb, nx.bb)]
+            near = [e for e in doms if all(b.dominates(o.bb, e.bb) for o in doms)]
+            st = df.state_in.get(nx.bb) or {}
+            r.instance("%s:advance-only-on-match#%d" % (name, i), bool(near) and in_set(st.get(("call", near[0].bb)), {1}),
+                       "the iterator over the database's fields is advanced where the name comparison of this Rust field has not come out equal", nx.span)
+
+
 def switch_edges_(b, sw):
     t = b.term(sw)
     return {int(v): tg for v, tg in t[2]}, t[3]
@@ -450,7 +479,7 @@ def check(ctx):
         sers = r1(ctx, facts)
     except AnchorLost as ex:
         ctx.rule("R1x", "anchors").fail("anchor-lost", str(ex))
-    for fn in ((lambda c, f: r2(c, f, sers)), r3, r4, r5, r6, r7):
+    for fn in ((lambda c, f: r2(c, f, sers)), r3, r4, r5, r6, r7, r8):
         try:
             fn(ctx, facts)
         except AnchorLost as ex:
